@@ -1,4 +1,3 @@
 //! Simulator core shared by all worlds.
 pub mod core;
 pub mod rng;
-pub mod types;
